@@ -1,13 +1,17 @@
 #!/bin/bash
-# usage: tools/seedtest.sh <seed id> <tier> <check ids...> : apply the seeded patch to /repo, run the checks, undo
+# usage: tools/seedtest.sh <seed id> <tier> <check ids...>
+# apply seeded/<id>/patch.diff to /repo, run the named checks, undo.  One result line per check is appended to
+# build/seedmatrix.tsv (seed, check, tier, violation lines, first violation text).
 id=$1; tier=$2; shift 2
-cd /repo && git apply /tmp/seeded/$id/patch.diff || { echo "patch does not apply"; exit 2; }
+cd /repo && git apply /verif/seeded/$id/patch.diff || { echo "patch does not apply"; exit 2; }
 git -C /repo diff --stat | tail -1
-cd /verif
+cd /verif; mkdir -p build
 for c in "$@"; do
   out=$(./vcheck run $c --tier $tier 2>&1)
   nv=$(echo "$out" | grep -c "^VIOLATION")
+  first=$(echo "$out" | grep "^VIOLATION" | head -1 | sed 's/.*# //' | cut -c1-160)
   echo "seed $id -> check $c ($tier): $nv violation line(s); $(echo "$out" | tail -1 | cut -c1-150)"
   echo "$out" | grep "^VIOLATION" | head -2 | sed 's/.*# /      /' | cut -c1-200
+  printf "%s\t%s\t%s\t%s\t%s\n" "$id" "$c" "$tier" "$nv" "$first" >> build/seedmatrix.tsv
 done
 git -C /repo checkout -- . ; git -C /verif checkout -- evidence 2>/dev/null
